@@ -219,6 +219,8 @@ def run(lst, cx, opaque):
                     raise Unsupported("memset form")
                 if ent[0] == "blob":       # struct array modelled as an opaque content tag (byte value it was filled with)
                     cx.store[cx.key(sv, f)] = cfun.expr(s["inner"][2], cx)
+                elif ent[0] == "structlist":   # array of structs, whole array: every member of every element is filled with the byte
+                    cx.store[cx.key(sv, f)] = "(List.replicate %d (%s.fill %s))" % (ent[2], ent[1], cfun.expr(s["inner"][2], cx))
                 elif ent[0] == "list":
                     cx.store[cx.key(sv, f)] = "(List.replicate %d %s)" % (ent[2], cfun.expr(s["inner"][2], cx))
                 else:
@@ -226,11 +228,39 @@ def run(lst, cx, opaque):
             elif name in ("memcpy", "svt_memcpy_app", "svt_memcpy"):
                 dsv, df = array_of(s["inner"][1], cx)
                 ssv, sf = array_of(s["inner"][2], cx)
-                if df.endswith("pred_struct"):
-                    opaque.append("copy_api_from_app: EB_MEMCPY of pred_struct entries (contents not modelled; only its bounds are tracked in `oob`)")
-                    n = read_key(cx, "%s.manual_pred_struct_entry_num" % ssv.var)
+                if dsv.fields[df][0] == "structlist":
+                    # memcpy(&dst[0], &src[0], N * sizeof(Elem)): bounded prefix copy of N elements.  N is the operand as clang
+                    # converted it (to size_t, so a negative count is a huge one); any N above the array length is recorded in
+                    # `oob` (for 32-bit N the byte count N*sizeof(Elem) mod 2^64 then also exceeds the array, so this is exact).
+                    dent, sent = dsv.fields[df], ssv.fields[sf]
+                    if sent[0] != "structlist" or sent[1] != dent[1]:
+                        raise Unsupported("memcpy between different struct arrays")
+                    for side in (s["inner"][1], s["inner"][2]):
+                        t = cstate.strip_casts(side)
+                        if t.get("kind") == "UnaryOperator" and t.get("opcode") == "&":
+                            t = cstate.strip_casts(t["inner"][0])
+                        if t.get("kind") == "ArraySubscriptExpr" and cfun.literal_value(cstate.strip_casts(t["inner"][1])) != 0:
+                            raise Unsupported("memcpy of a struct array not starting at element 0")
+                    size = s["inner"][3]
+                    while size.get("kind") in ("ParenExpr",) or (size.get("kind") == "ImplicitCastExpr" and size.get("castKind") == "NoOp"):
+                        size = size["inner"][0]
+                    if not (size.get("kind") == "BinaryOperator" and size.get("opcode") == "*"):
+                        raise Unsupported("memcpy size of a struct array is not `count * sizeof(element)`")
+                    a, b = size["inner"]
+                    def is_sizeof(x):
+                        x = cstate.strip_casts(x)
+                        return x.get("kind") == "UnaryExprOrTypeTraitExpr" and x.get("name") == "sizeof" and \
+                            x.get("argType", {}).get("qualType") == cx.struct_ctype.get(dent[1])
+                    if is_sizeof(b) and not is_sizeof(a):
+                        cnt = cfun.expr(a, cx)
+                    elif is_sizeof(a) and not is_sizeof(b):
+                        cnt = cfun.expr(b, cx)
+                    else:
+                        raise Unsupported("memcpy size of a struct array is not `count * sizeof(element)`")
+                    dk, sk = cx.key(dsv, df), cx.key(ssv, sf)
+                    cx.store[dk] = "(copyPrefixE %s %s %s)" % (cnt, read_key(cx, sk), read_key(cx, dk))
                     ok = "%s.oob" % dsv.var
-                    cx.store[ok] = "(if decide (%s < 0) || decide (%s > 32) then 1 else %s)" % (n, n, read_key(cx, ok))
+                    cx.store[ok] = "(if decide (%s > %d) then 1 else %s)" % (cnt, min(dent[2], sent[2]), read_key(cx, ok))
                     continue
                 ent = dsv.fields[df]
                 m = re.search(r'"kind": "IntegerLiteral".*?"value": "(\d+)"', json.dumps(s["inner"][3]))
